@@ -1376,6 +1376,49 @@ pub fn handshake_frag(cx: &mut Ctx) {
 			}
 		}
 	}
+	// a handshake message whose frame header announces MORE bytes than its fields occupy (what a newer peer that
+	// appended a field sends; within the 4x limit): the surplus belongs to the message - it has to be taken off the
+	// socket with it, the Ping behind must be read at the right offset.  And one byte LESS than the fields need:
+	// refused.
+	for accept in [true, false] {
+		for (ki, k) in [1i64, 4, 64, -1].iter().enumerate() {
+			for (mi, mode) in ["coalesced", "bytewise"].iter().enumerate() {
+				let ver = vers[(ki + mi) % vers.len()];
+				let agent = "verif/surplus".to_string();
+				let mut hs_msg = if accept {
+					wire(&Msg::new(Type::Hand, Hand { version: ProtocolVersion(ver), capabilities: Capabilities::default(), nonce: cx.rng.next(), genesis: g, total_difficulty: Difficulty::from_num(1), sender_addr: a4, receiver_addr: a4, user_agent: agent }, ProtocolVersion(ver)).unwrap())
+				} else {
+					wire(&Msg::new(Type::Shake, Shake { version: ProtocolVersion(ver), capabilities: Capabilities::default(), genesis: g, total_difficulty: Difficulty::from_num(1), user_agent: agent }, ProtocolVersion(ver)).unwrap())
+				};
+				let body_len = (hs_msg.len() - 11) as i64;
+				hs_msg[3..11].copy_from_slice(&((body_len + k) as u64).to_be_bytes());
+				if *k > 0 {
+					// surplus bytes that are no frame header (read as one they give a wrong magic)
+					for j in 0..*k {
+						hs_msg.push(0xA0 | (j as u8 & 0x0f));
+					}
+				} else {
+					hs_msg.pop();
+				}
+				let height = 70_000 + cx.rng.below(10_000);
+				let ping = ping_frame(ver.min(1000), height);
+				let frags: Vec<Vec<u8>> = match *mode {
+					"coalesced" => {
+						let mut f = hs_msg.clone();
+						f.extend_from_slice(&ping);
+						vec![f]
+					}
+					_ => {
+						let mut f: Vec<Vec<u8>> = hs_msg.iter().map(|b| vec![*b]).collect();
+						f.last_mut().unwrap().extend_from_slice(&ping);
+						f
+					}
+				};
+				// `ua` carries the surplus for the statistics line; `over` = the handshake must fail
+				jobs.push(Job { accept, ver, ua: (1000 + k) as usize, over: *k < 0, frags, height, mode: if *mode == "coalesced" { "surplus-coalesced" } else { "surplus-bytewise" } });
+			}
+		}
+	}
 	let now = Utc::now().timestamp();
 	let batch = 8;
 	let mut results: Vec<Option<Result<PeerRes, String>>> = (0..jobs.len()).map(|_| None).collect();
@@ -1399,7 +1442,11 @@ pub fn handshake_frag(cx: &mut Ctx) {
 	}
 	for (i, job) in jobs.iter().enumerate() {
 		let dir = if job.accept { "accept" } else { "connect" };
-		cx.stat(&format!("hsfrag: {} {} user agent of {} bytes{}", dir, job.mode, job.ua, if job.over { " (one over the frame limit)" } else { "" }));
+		if job.mode.starts_with("surplus") {
+			cx.stat(&format!("hsfrag: {} {} announced length = fields {:+} bytes", dir, job.mode, job.ua as i64 - 1000));
+		} else {
+			cx.stat(&format!("hsfrag: {} {} user agent of {} bytes{}", dir, job.mode, job.ua, if job.over { " (one over the frame limit)" } else { "" }));
+		}
 		let rs = match &results[i] {
 			Some(Ok(r)) => {
 				let mut evs = r.events.clone();
@@ -1530,7 +1577,7 @@ pub fn list_limits(cx: &mut Ctx, work: &std::path::Path) {
 		}
 		// Headers at MAX_BLOCK_HEADERS: max - 1, max (what an honest peer answers to GetHeaders), and max + 1 (the
 		// streaming codec has no count bound of its own: only the frame length limits the list)
-		for n in [max_hdr - 1, max_hdr, max_hdr + 1] {
+		for n in [max_hdr - 1, max_hdr, max_hdr + 1, 600] {
 			if ver != 1000 && !cx.thorough {
 				continue;
 			}
@@ -1583,6 +1630,17 @@ pub fn list_limits(cx: &mut Ctx, work: &std::path::Path) {
 			hs.push(hs[k % 48].clone());
 		}
 		plan.push(headers_plan(&hs, ver));
+		// beyond MAX_BLOCK_HEADERS: nothing on either side caps the list (the u16 count and the frame limit do):
+		// what `Headers::write` is handed is what the other side's handler sees
+		for n in [max_hdr + 1, 600] {
+			let mut hs2 = hs.clone();
+			while hs2.len() < n {
+				let k = hs2.len();
+				hs2.push(hs2[k % 48].clone());
+			}
+			plan.push(headers_plan(&hs2, ver));
+			plan.push(plan_message(cx, ver, 0));
+		}
 		plan.push(pa(cx, max_pa - 1));
 		plan.push(loc(cx, max_loc - 1));
 		plan.push(pa(cx, 0));
